@@ -126,7 +126,7 @@ class C13(Check):
                        denc="raw", dtype="uint64", ddtype="uint64", nchan=1,
                        copy_info=False, library_pair=False,
                        dbits=[0, 0, 0], dshenc=["raw", "raw"],
-                       scales=[{"key": "0um", "size": [64, 64, 32],
+                       scales=[{"key": "0um", "size": [64, 64, 64],
                                 "cs": [[32, 32, 32]], "block": [8, 8, 8]}])
         return {"scenario": scn}
 
@@ -342,7 +342,7 @@ class C13(Check):
             res.probe("dtype_widened")
         if scn["denc"] != scn["enc"]:
             res.probe("encoding_changed")
-        if scn["scales"][0]["size"] == [64, 64, 32]:
+        if scn["scales"][0]["size"] == [64, 64, 64]:
             res.probe("minishard_over_1MiB")
         res.digest = log.digest()
         res.steps = fs.total_calls + server.total
